@@ -20,6 +20,24 @@ RFCH = {0: "ch0", 2: "a/ch1"}                 # even groups: RF channels
 MDCH = {1: "ch0/metadata", 3: "md2"}          # odd groups: metadata channels
 NKEYS = 4
 LEVEL = "proof"
+
+
+def regenerate(res):
+    """T15: the handler list DigitalRFMirror.__init__ builds -> coq/Gen/MirrorInitGen.v"""
+    import sys
+    sys.path.insert(0, os.path.join(common.VERIF, "translate"))
+    import c2gallina
+    import mirrorinit2gallina
+    try:
+        text = mirrorinit2gallina.translate(common.REPO)
+    except c2gallina.Unsupported as e:
+        res.broken.append({"what": "T15 translator: DigitalRFMirror.__init__ left the supported shape", "log": str(e)})
+        return
+    except Exception as e:  # noqa
+        res.broken.append({"what": "T15 translator failed", "log": repr(e)})
+        return
+    common.write_if_changed(os.path.join(common.COQ, "Gen", "MirrorInitGen.v"), text)
+    res.trusted.append("translate/mirrorinit2gallina.py (T15: handler list of DigitalRFMirror.__init__ from Python's ast, fail-closed)")
 METH = {0: "copy", 1: "move", 2: "link"}
 
 
@@ -854,6 +872,59 @@ _SHM = []     # scratch directories outside common.scratch_root() (tmpfs); the c
               # leaves through os._exit, so they are removed explicitly
 
 
+def handler_table_leg(res):
+    """the regenerated handler table (Gen/MirrorInitGen.v, vm_compute) against real DigitalRFMirror objects:
+    per handler its kind (copy-like / shutil.move / ring buffer with its count) and which of an RF file, a
+    metadata file, drf_properties.h5, dmd_properties.h5 its regexes accept; every method x link x flags"""
+    common.use_impl()
+    import shutil as _sh
+    import digital_rf
+    from digital_rf import ringbuffer as _rb
+    cls = digital_rf.mirror.DigitalRFMirror
+    work = common.scratch_dir()
+    probes = ["ch/2017-07-14T02-40-00/rf@1500000000.000.h5", "ch/metadata/2017-07-14T02-40-00/metadata@1500000000.h5",
+              "ch/drf_properties.h5", "ch/metadata/dmd_properties.h5"]
+    cases, exprs = [], []
+    for method in ("copy", "move", "link"):
+        for link in (False, True):
+            for drf, dmd in ((True, True), (True, False), (False, True)):
+                orig = cls._init_observer
+                cls._init_observer = lambda _s: None
+                try:
+                    m = cls(os.path.join(work, "s"), os.path.join(work, "d"), method=method, link=link, include_drf=drf, include_dmd=dmd)
+                finally:
+                    cls._init_observer = orig
+                got = []
+                for hd in m.event_handlers:
+                    if isinstance(hd, _rb.DigitalRFRingbufferHandlerBase):
+                        code = 100 + int(getattr(hd, "count", -1))
+                    elif getattr(hd, "mirror_fun", None) is _sh.move:
+                        code = 2
+                    elif getattr(hd, "mirror_fun", None) is _sh.copy2 or type(getattr(hd, "mirror_fun", None)).__name__ == "LinkWithFallback":
+                        code = 1
+                    else:
+                        code = 9
+                    got += [code] + [int(any(r.match(os.path.join(m.src, q)) for r in hd.regexes)) for q in probes]
+                mv = "true" if m.method == "move" else "false"
+                cases.append(((method, link, drf, dmd), got))
+                exprs.append("(concat (map (fun gf : gfun * gflags => [match fst gf with GCopyLike => 1 | GShutilMove => 2 | GRingbuffer c => 100 + c end; "
+                             "b2z (g_match (snd gf) (mkP 0 0 0)); b2z (g_match (snd gf) (mkP 1 0 0)); b2z (g_match (snd gf) (mkP (-1) 0 0)); "
+                             "b2z (g_match (snd gf) (mkP (-2) 0 0))]) (gen_event_handlers %s %s %s)))" %
+                             (mv, "true" if drf else "false", "true" if dmd else "false"))
+    try:
+        rows = common.run_model_vm("From DRF Require Import Model.Ringbuffer Model.MirrorInitBase Gen.MirrorInitGen Proofs.MirrorInitGenProofs.\n"
+                                   "From Coq Require Import ZArith List.\nDefinition b2z (b : bool) : Z := if b then 1%Z else 0%Z.", exprs)
+    except common.Broken as e:
+        res.broken.append({"what": "regenerated handler table cannot be evaluated", "log": str(e)[-1500:]})
+        return
+    for (cfg, got), row in zip(cases, rows):
+        res.count("handler-table-vs-real-mirror")
+        if row != got:
+            res.disagree("Gen/MirrorInitGen.gen_event_handlers vs the handlers of a real DigitalRFMirror "
+                         "(per handler: kind, accepts RF / metadata / drf_properties / dmd_properties)",
+                         {"method": cfg[0], "link": cfg[1], "include_drf": cfg[2], "include_dmd": cfg[3]}, row, got)
+
+
 def run(res):
     try:
         _run(res)
@@ -915,6 +986,7 @@ def _run(res):
     res.count("vm_compute_crosscheck", len(encs))
     if vm != ex:
         res.disagree("extracted OCaml vs vm_compute (mirror runner)", None, None, None)
+    handler_table_leg(res)
     res.extra["traces_validated_against_impl"] = res.dist.get("fs-operations-traced", 0)
     res.assumptions += [
         "os.rename and os.link are atomic; shutil.copy2 writes the destination name before the content is complete (traced: copyfile is replaced by a two-chunk copy to observe the middle)",
